@@ -2669,9 +2669,11 @@ class BaseInterpreter(Generic[TContext, TEvent]):
         parent = transition.source.parent or self.machine
 
         # For any self-transition, the domain is the parent. This forces an
-        # exit/re-entry cycle for the source state.
+        # exit/re-entry cycle for the source state. The machine root has no
+        # parent: `None` makes the root itself exit and re-enter, instead of
+        # exiting every descendant and entering nothing.
         if target_state == transition.source:
-            return parent
+            return transition.source.parent
 
         # Standard case: Compute the Least Common Compound Ancestor (LCCA).
         source_ancestors = self._get_ancestors(transition.source)
@@ -2693,7 +2695,11 @@ class BaseInterpreter(Generic[TContext, TEvent]):
         # restored, permanently killing them. The parent is the correct domain:
         # it exits and re-enters exactly the target subtree.
         if target_state in source_ancestors:
-            return target_state.parent or self.machine
+            # 🌳 When the target is the machine root there is no parent to
+            #    step up to. Returning the root as the domain left the entry
+            #    path empty (everything exited, nothing entered: only the root
+            #    active). `None` exits and re-enters the root itself.
+            return target_state.parent
 
         if not common_ancestors:
             # Fallback to parent (or machine root) if no commonality is found.
